@@ -87,6 +87,17 @@ pub fn run(ctx: &mut Ctx) {
             case(ctx, &parser, &format!("else-interrupt:{}", crate::proto::hex(&want)), t, &d);
         }
     }
+    // short ranges at the very ends of the 64-bit range (judged by the same reference as the grid)
+    for (lo, hi) in [(i64::MAX - 2, i64::MAX), (i64::MAX, i64::MAX), (i64::MAX - 1, i64::MAX), (i64::MIN, i64::MIN + 2), (i64::MIN, i64::MIN), (i64::MAX, i64::MAX - 1)] {
+        for (off, lim, rev) in [(None, None, false), (Some(1i64), Some(2i64), true), (Some(0), Some(1), false), (None, Some(5), true)] {
+            let t = vec![Node::For { x: "x".into(), rng: RangeE::Counted(lit_i(lo), lit_i(hi)), limit: lim.map(lit_i), offset: off.map(lit_i), rev, body: fields_body("forloop", FOR_FIELDS, "x"), els: Some(vec![text("EMPTY")]) }];
+            case(ctx, &parser, &format!("for-range:{}:{}:{}:{}:{}", on(&off), on(&lim), rev as u8, lo, hi), t, &Object::new());
+            for cols in [None, Some(2i64)] {
+                let t = vec![Node::TableRow { x: "x".into(), rng: RangeE::Counted(lit_i(lo), lit_i(hi)), cols: cols.map(lit_i), limit: lim.map(lit_i), offset: off.map(lit_i), body: fields_body("tablerow", TR_FIELDS, "x") }];
+                case(ctx, &parser, &format!("tablerow-range:{}:{}:{}:{}:{}", on(&off), on(&lim), on(&cols), lo, hi), t, &Object::new());
+            }
+        }
+    }
     // a counted range is collected into a vector BEFORE limit/offset are applied: the full i64 range
     // overflows the vector's capacity computation (an open finding, see known_findings.json); only this
     // exact witness is run, because slightly shorter ranges try to allocate terabytes and abort
